@@ -6,6 +6,7 @@ pub mod c07;
 pub mod c08;
 pub mod c08_tok;
 pub mod c08_order1;
+pub mod c08_aac;
 pub mod c16;
 pub mod c16_fmtmodel;
 pub mod c12;
